@@ -120,7 +120,17 @@ def c19_case(rec, root):
         meta.append("#META CTE_RED1: " + (r1v if c["r1meta"] == "valid" else "bad"))
     if c["r2meta"] != "absent":
         meta.append("#META CTE_RED2: " + (r2v if c["r2meta"] == "valid" else "bad"))
-    open(os.path.join(d, "in.csv"), "w").write("\n".join(meta + [BUILDING]))
+    # position of the metadata lines in the file (the parser reads them wherever they are): before the data,
+    # after a column-header line and the first data line, or at the end of the file
+    pos = (rec.get("case", 0) // 3) % 3
+    blines = BUILDING.strip().split("\n")
+    if pos == 0:
+        text = "\n".join(meta + blines)
+    elif pos == 1:
+        text = "\n".join(["vector, tipo, src_dst, valores", blines[0]] + meta + blines[1:])
+    else:
+        text = "\n".join(blines + meta)
+    open(os.path.join(d, "in.csv"), "w").write(text + "\n")
     argv = ["-c", "in.csv", "--json", "out.json", "--oc", "out.csv"]
     fpath = None
     if c["ffile"]:
